@@ -460,6 +460,7 @@ mod tests {
             obj: vec![1.0, 2.0],
             offset: 0.0,
             sense: Sense::Max,
+            decor: Vec::new(),
         };
         assert_eq!(decide(&m).verdict, Verdict::Optimal(Q::int(10)));
         let mut m2 = m.clone();
@@ -504,6 +505,7 @@ mod tests {
             obj: vec![3.0, 4.0],
             offset: 0.5,
             sense: Sense::Min,
+            decor: Vec::new(),
         };
         assert_eq!(decide(&m).verdict, Verdict::Optimal(Q::new(23, 2)));
     }
